@@ -266,13 +266,13 @@ func (c Cfg) Schema(of sod.Object) sod.Schema {
 var cfgQuick = []Cfg{
 	{},
 	{Cache: true},
-	{Compress: true, Ext: ".obj"},
+	{Compress: true, Ext: ".v1.obj"},
 	{Async: 1},
 	{Cache: true, Compress: true, Lower: true, Index: 1},
-	{Async: 2, Lower: true, Ext: ".obj", Index: 2},
+	{Async: 2, Lower: true, Ext: ".v1.obj", Index: 2},
 	{Async: 3, Compress: true, Index: 1},
 	{Cache: true, Index: 2, MapRev: true},
-	{Index: 3, Ext: ".obj"},
+	{Index: 3, Ext: ".v1.obj"},
 }
 
 func allCfgs() []Cfg {
@@ -281,7 +281,7 @@ func allCfgs() []Cfg {
 		for _, comp := range []bool{false, true} {
 			for _, as := range []int{0, 1, 2} {
 				for _, low := range []bool{false, true} {
-					for _, ext := range []string{"", ".obj"} {
+					for _, ext := range []string{"", ".v1.obj"} {
 						for _, idx := range []int{0, 1, 2} {
 							out = append(out, Cfg{Cache: cache, Compress: comp, Async: as, Lower: low, Ext: ext, Index: idx})
 						}
